@@ -628,6 +628,14 @@ def _autoshapes(ctx, prog, S, M):
             e = e.args[0]
             if isinstance(e, ast.Name) and e.id in val:
                 e = val[e.id]
+        if isinstance(e, ast.Call) and dotted(e.func) in ("starmap", "itertools.starmap") and len(e.args) == 2 \
+                and (dotted(e.args[0]) or "").split(".")[-1] == "Adjustment":
+            # starmap(Adjustment, <pairs>) is [Adjustment(a, b) for a, b in <pairs>]
+            e = ast.copy_location(ast.ListComp(
+                elt=ast.Call(func=e.args[0], args=[ast.Name(id="_n", ctx=ast.Load()), ast.Name(id="_v", ctx=ast.Load())], keywords=[]),
+                generators=[ast.comprehension(target=ast.Tuple(elts=[ast.Name(id="_n", ctx=ast.Store()), ast.Name(id="_v", ctx=ast.Store())], ctx=ast.Store()),
+                                              iter=e.args[1], ifs=[], is_async=0)]), e)
+            ast.fix_missing_locations(e)
         src_txt = ast.unparse(e)
         if isinstance(e, ast.Subscript) and (dotted(e.value) or "").split(".")[0] in ("cls", "self", "AutoShapeType", "AdjustmentCollection", "Adjustment"):
             # the objects are taken out of a store that outlives the call (a class-level cache): every collection built from it holds
